@@ -1,0 +1,55 @@
+/*
+ * Copyright (C) 2024 Nuts community
+ *
+ * This program is free software: you can redistribute it and/or modify
+ * it under the terms of the GNU General Public License as published by
+ * the Free Software Foundation, either version 3 of the License, or
+ * (at your option) any later version.
+ *
+ * This program is distributed in the hope that it will be useful,
+ * but WITHOUT ANY WARRANTY; without even the implied warranty of
+ * MERCHANTABILITY or FITNESS FOR A PARTICULAR PURPOSE.  See the
+ * GNU General Public License for more details.
+ *
+ * You should have received a copy of the GNU General Public License
+ * along with this program.  If not, see <https://www.gnu.org/licenses/>.
+ *
+ */
+
+package resolver
+
+import (
+	"testing"
+
+	"github.com/stretchr/testify/assert"
+)
+
+func TestRejectNullKeyEntries(t *testing.T) {
+	rejected := []string{
+		`{"verificationMethod":[null]}`,
+		`{"assertionMethod":["#key-1",""]}`,
+		// encoding/json matches the members of the DID document case-insensitively
+		`{"VerificationMethod":[null]}`,
+		`{"VERIFICATIONMETHOD":[ null ]}`,
+		`{"AssertionMethod":[""]}`,
+		`{"capabilityinvocation":[null]}`,
+		// every occurrence counts
+		`{"verificationMethod":[null],"verificationMethod":[]}`,
+		`{"verificationMethod":[],"VerificationMethod":[null]}`,
+		`{"Authentication":[null],"authentication":["#key-1"]}`,
+	}
+	for _, document := range rejected {
+		assert.Error(t, RejectNullKeyEntries([]byte(document)), document)
+	}
+	accepted := []string{
+		`{"verificationMethod":[{"id":"#key-1"}],"assertionMethod":["#key-1"]}`,
+		`{"verificationMethod":null}`,
+		`{"service":[null]}`,
+		`[null]`,
+		`not json`,
+		``,
+	}
+	for _, document := range accepted {
+		assert.NoError(t, RejectNullKeyEntries([]byte(document)), document)
+	}
+}
